@@ -14,7 +14,7 @@ func init() {
 		"DECIDED: D1 sketch table — for every accepted factor class other than 1, every feasible path of DDSketch.Reweight scales the zero weight by w and calls Reweight(w) on both the positive and the negative store with the same factor term (callee tables show no store can fail after the guard); the exact variant then reweights the statistics. "+
 			"D2 every store body scales everything it holds: dense — cached total *= w and the loop multiplies every element of the window minIndex…maxIndex inclusive; sparse — the loop ranges over the map it writes and multiplies every entry by w; paginated — every element of every page is multiplied by w and every index that was in the buffer before it is truncated is re-added with weight exactly w through the store's own AddWithCount. "+
 			"D3 exact variant — its Reweight performs the inner Reweight first and, on the success edge only, the statistics Reweight with the same factor; SummaryStatistics.Reweight multiplies every accumulator (count, sum, sum compensation) by a positive factor and leaves min/max alone (the C10-D1/D3 obligations re-evaluated). "+
-			"SHARED (re-evaluated here under its home rule id): C14-D2 for the two sketch types (a copy shares neither stores nor statistics with its original: reweighting one scales only that one). "+
+			"SHARED (re-evaluated here under its home rule id): C04-D9 for the paginated Reweight (a buffered index re-added with weight w goes to the line of its own page; pages through the accessor). C14-D2 for the two sketch types (a copy shares neither stores nor statistics with its original: reweighting one scales only that one). "+
 			"NOT DECIDED: equality of the scaled values (float multiplication), interaction with collapse (the collapsing stores inherit the dense body — safe by C05-D1).",
 		"one obligation per factor class of the sketch table and per scaling clause of each store body",
 		false, runC16)
@@ -33,6 +33,11 @@ func runC16(c *Ctx) {
 	c10StatObject(c, a, "C16-D3", "Reweight")
 	// "of this sketch only": a copy shares nothing with its original, so reweighting one leaves the other as it was
 	c.shared(func() { c14Copies(c, a) }, keyMentions("DDSketch"))
+	// "including indexes still held as unit entries": when the paginated store moves its buffered indexes to pages
+	// with weight w, each lands on the line of its own page
+	if pr := c.paginated(); pr.err == "" {
+		c.shared(func() { c04PageTable(c, pr, "C04-D9"); c04PageUse(c, pr, "C04-D9") }, keyMentions("Reweight"))
+	}
 }
 
 func isTimesW(v *Term, base func(*Term) bool, w func(*Term) bool) bool {
